@@ -1,4 +1,5 @@
 import CookModel.Lemmas.ExtLawsGates
+import CookModel.Syntax.Blocks
 /-
   C02, the component parsers, the step loop and `parse_block`: under the syntactic premise
   `UsesNone` on the tokens of the block the result does not depend on the extension set.
@@ -622,5 +623,42 @@ theorem runBlock_ext_irrelevant (cs : CharSpec) (e₁ e₂ : Ext) (oldStyle : Bo
   dsimp only at this
   rw [this]
   rfl
+
+/-! ### All blocks of an input -/
+
+/-- the token stream `PullParser` splits into blocks (after the front matter, if any) -/
+def inputTokens (cs : CharSpec) (input : List Char) : List Tok :=
+  match parseFrontmatter cs input with
+  | some fm => lexFrom cs fm.cookOffset fm.cookText
+  | none => lex cs input
+
+/-- every block of the input satisfies `UsesNone` -/
+def UsesNoneInput (cs : CharSpec) (input : List Char) : Bool :=
+  (allBlocks ((inputTokens cs input).length + 1) (inputTokens cs input)).all (UsesNone cs)
+
+theorem foldl_runBlock_ext (cs : CharSpec) (e₁ e₂ : Ext) (oldStyle : Bool) (bs : List (List Tok))
+    (h : ∀ b ∈ bs, UsesNone cs b = true) (acc : Array (Ev α) × Option String) :
+    bs.foldl (fun acc b => runBlock cs e₁ oldStyle b acc.1 acc.2) acc =
+    bs.foldl (fun acc b => runBlock cs e₂ oldStyle b acc.1 acc.2) acc := by
+  induction bs generalizing acc with
+  | nil => rfl
+  | cons b bs ih =>
+    simp only [List.foldl_cons]
+    rw [runBlock_ext_irrelevant cs e₁ e₂ oldStyle b acc.1 acc.2 (h b (by simp))]
+    exact ih (fun b' hb' => h b' (by simp [hb'])) _
+
+theorem pullEvents_ext_irrelevant (cs : CharSpec) (e₁ e₂ : Ext) (input : List Char)
+    (h : UsesNoneInput cs input = true) :
+    pullEvents (α := α) cs e₁ input = pullEvents cs e₂ input := by
+  unfold UsesNoneInput inputTokens at h
+  unfold pullEvents
+  rw [List.all_eq_true] at h
+  cases hfm : parseFrontmatter cs input with
+  | none =>
+    rw [hfm] at h
+    exact foldl_runBlock_ext cs e₁ e₂ true _ h _
+  | some fm =>
+    rw [hfm] at h
+    exact foldl_runBlock_ext cs e₁ e₂ false _ h _
 
 end Cook
